@@ -186,7 +186,7 @@ def replay(payload):
 def run(chk):
     quick = chk.tier == "quick"
     nc = 96 if quick else 2400
-    ns = 16 if quick else 480
+    ns = 16 if quick else 200
     tasks = [("controlled", chk.tier, chk.seed, s, nc // 12) for s in range(12)]
     tasks += [("stress", chk.tier, chk.seed, s, max(1, ns // 4)) for s in range(4)]
     chk.absorb(run_tasks(task, tasks), kind="workload")
